@@ -36,7 +36,7 @@ UParseDemands(e, r) ==
     <<"C05.value",    (IsOk(r) /\ e.ok) => e.v = r.v>>,
     <<"C05.reject",   IsFail(r) => ~e.ok>>,
     <<"C05.zero",     (~e.ok /\ ~e.panic) => e.v = ZeroID>>,
-    <<"C05.typed",    (IsFail(r) /\ ~e.ok /\ ~e.panic) => e.typed>>,
+    <<"C05.typed",    (IsFail(r) /\ ~e.ok) => e.typed>>,
     <<"C05.sentinel", (IsFail(r) /\ ~e.ok /\ ~e.panic /\ r.req # {"ErrInputTooLong"}) => SentinelsOK(r, e.is)>>,
     <<"C18.toolong",  (IsFail(r) /\ ~e.ok /\ ~e.panic /\ r.req = {"ErrInputTooLong"}) => SentinelsOK(r, e.is)>>,
     <<"C18.noecho",   (IsFail(r) /\ r.req = {"ErrInputTooLong"}) => ~e.echo>>
